@@ -132,6 +132,13 @@ func VerifyLightClientAttack(e *types.LightClientAttackEvidence, commonHeader, t
 		return fmt.Errorf("invalid commit from conflicting block: %w", err)
 	}
 
+	// The byzantine validators are read off ALL signatures of the conflicting commit, while the two
+	// commit checks above return as soon as enough voting power is tallied: verify the remaining
+	// signatures for the block too, so that nobody is named by a signature that is not their own.
+	if err := verifyAllSignaturesForBlock(trustedHeader.ChainID, e.ConflictingBlock); err != nil {
+		return fmt.Errorf("invalid commit from conflicting block: %w", err)
+	}
+
 	// Assert the correct amount of voting power of the validator set
 	if evTotal, valsTotal := e.TotalVotingPower, commonVals.TotalVotingPower(); evTotal != valsTotal {
 		return fmt.Errorf("total voting power from the evidence and our validator set does not match (%d != %d)",
@@ -267,6 +274,28 @@ func validateABCIEvidence(
 		}
 	}
 
+	return nil
+}
+
+// verifyAllSignaturesForBlock checks every CommitSig for the block of a light block's commit: it
+// must carry the address of the validator with the same index and a signature of that validator.
+// CONTRACT: the commit has one signature per validator (VerifyCommitLight succeeded).
+func verifyAllSignaturesForBlock(chainID string, lb *types.LightBlock) error {
+	for idx, commitSig := range lb.Commit.Signatures {
+		if !commitSig.ForBlock() {
+			continue
+		}
+		if idx >= len(lb.ValidatorSet.Validators) {
+			return fmt.Errorf("signature #%d has no validator", idx)
+		}
+		val := lb.ValidatorSet.Validators[idx]
+		if !bytes.Equal(val.Address, commitSig.ValidatorAddress) {
+			return fmt.Errorf("signature #%d carries address %X, expected %X", idx, commitSig.ValidatorAddress, val.Address)
+		}
+		if !val.PubKey.VerifySignature(lb.Commit.VoteSignBytes(chainID, int32(idx)), commitSig.Signature) {
+			return fmt.Errorf("wrong signature (#%d): %X", idx, commitSig.Signature)
+		}
+	}
 	return nil
 }
 
